@@ -72,6 +72,26 @@ CHECKS["C05"] = dict(
          "exported script plus seeded random scripts and a real UniLpMarket mix is run by the real Actuator and its trace must be "
          "accepted by Trace_BarLoop (each event takeable as the next spec action); corrupted traces must be rejected")
 
+CHECKS["C06"] = dict(
+    technique="TLA+ spec TickMath.tla (protocol algorithm over exact naturals, floor relation, closed-form bracket, price and "
+              "nearest-usable relations); recorded calls of the real helpers validated by TLC with the trace spec Trace_TickMath",
+    design="3/C06",
+    text="exhaustive over all 1,774,545 ticks: get_sqrt_ratio_at_tick equals the spec's transcription of TickMath and the spec's values "
+         "are strictly increasing with the protocol's boundary constants; floor relation S(t) <= p < S(t+1) checked for recorded "
+         "sqrt_price_x96_to_tick calls on and between boundaries of a tick sample; closed-form bracket with integers for |t| <= 2048, "
+         "powers of two, boundaries and a seeded sample; tick->price->tick within one tick for 9 decimals pairs x 2 orientations and "
+         "through UniLpMarket; nearest_usable_tick against the nearest-multiple relation")
+CHECKS["C17"] = dict(
+    technique="TLA+ specs GmxV1.tla / GmxV2.tla (Vault fee rule, mint/redeem with the contract's floors, v2 price impact and fee factors "
+              "over exact rationals) model-checked by TLC (BFS + simulation, invariants, DEV switches); behaviours replayed into the real "
+              "GmxMarket / GmxV2Market with a real Broker, every step compared",
+    design="3/C17",
+    text="TLC explores pool rows (token below/at/above target weight, target 0, 6-decimals token, aum/supply ratios; v2 balanced / "
+         "long-heavy / short-heavy pools x impact pool x virtual inventory) and buy/sell, deposit/withdraw sequences, checking fee "
+         "bounds, fee within 1 bp of the Vault rule, round trips, non-negative shares, value per share; each behaviour is replayed into "
+         "the real markets and return values, wallet, shares, balances, fee bps, reward and action records are compared "
+         "(v1 1e-30, v2 float pipeline 1e-9)")
+
 NOT_YET = "check not built yet in this round (see DESIGN.md section 3 for the planned spec clauses)"
 
 
